@@ -358,6 +358,14 @@ func propLookupVector(t *rapid.T, c *curve) {
 		}
 	}
 
+	// challenge binding: beta/gamma <- (t, f, h1, h2), alpha <- z, nu <- h (reference prover, adaptive)
+	for _, comp := range []string{"t", "f", "h1", "h2"} {
+		lookupBinding(t, c, test, comp, 0)  // the message simply dropped
+		lookupBinding(t, c, test, comp, -1) // one of: only the first / only the last / nothing bound
+	}
+	lookupBinding(t, c, test, "z", 0)
+	lookupBinding(t, c, test, "h", 0)
+
 	var b reflect.Value
 	{
 		g, u, _ := drawLookupVector(t, c, "b")
@@ -512,6 +520,9 @@ func propLookupTables(t *rapid.T, c *curve) {
 			}
 		}
 	}
+
+	// challenge binding: lambda must depend on every row commitment (the library's own prover)
+	tablesBindingLambda(t, c, test)
 
 	var b reflect.Value
 	{
